@@ -7,6 +7,7 @@ from ..astutil import (src, flat_guards, calls_in, call_name, kwarg, const_value
                        iter_own_nodes, ancestors, is_within)
 from ..cfg import cfg_of, Prov
 from .. import variants as V
+from .. import kernel
 from . import c08
 
 PROPERTY = "C17"
@@ -410,6 +411,11 @@ def r6_wiring(repo):
     return obs
 
 
+def r7_variance(repo):
+    """'contravariant projection' and 'variant type parameter' are what is_contravariant() / is_invariant() say"""
+    return kernel.variance_table(repo, "C17-R7")
+
+
 def rules():
     return [
         RuleSpec("C17-R1", "origin of use-site projections (all WildCardType construction sites)", 6, r1_projections),
@@ -418,6 +424,7 @@ def rules():
         RuleSpec("C17-R4", "origin of function type parameters", 4, r4_parameterized_functions),
         RuleSpec("C17-R5", "declaration-site variance only for Kotlin/Scala classes", 6, r5_variance),
         RuleSpec("C17-R6", "switch wiring in src/args.py", 6, r6_wiring),
+        RuleSpec("C17-R7", "the three variance objects answer their own predicates", 4, r7_variance),
     ]
 
 
